@@ -70,6 +70,19 @@ def choose_rotations(rng, Kx, Ky, per):
 
 
 def gen_case(rng, tier, i):
+    if rng.random() < 0.1:
+        # "the right partner and sign" cell by cell on ARBITRARY per-face data (no global field behind it), with
+        # components of different types: the vector cases of C05's generator, judged as there
+        import c05
+        while True:
+            c = c05.gen_case(rng, tier, i)
+            if c["vec"]:
+                break
+        if not c.get("int_comp"):
+            c["int_comp"] = True
+            c["data"] = [float(rng.randint(-16, 16)) for _ in c["data"]]
+            c["fill"] = {"X": float(rng.randint(-3, 3)), "Y": float(rng.randint(-3, 3))}
+        return {"kind": "generic", "c05": c}
     if rng.random() < 0.15:
         N = rng.randint(2, 5)
         return {"kind": "simple", "N": N, "ny": rng.randint(2, 4),
@@ -159,6 +172,11 @@ def eval_simple(case, drv):
 
 
 def eval_case(case, drv):
+    if case["kind"] == "generic":
+        import c05
+        v = c05.eval_case(case["c05"], drv)
+        v["branch"] = "generic:" + v.get("branch", "")
+        return v
     if case["kind"] == "simple":
         return eval_simple(case, drv)
     import random
@@ -265,6 +283,9 @@ def eval_case(case, drv):
 
 
 def nontrivial(case, verdict):
+    if case["kind"] == "generic":
+        import c05
+        return c05.nontrivial(case["c05"], verdict)
     if case["kind"] == "simple":
         return True
     tbl = table_of(case["Kx"], case["Ky"], case["per"], [tuple(o) for o in case["orient"]])
